@@ -31,6 +31,9 @@ type monitor struct {
 	kind    monitorKind
 	request map[string]*ovsdb.MonitorRequest
 	client  *rpc2.Client
+	// the database the monitor was requested for, and its schema
+	database string
+	schema   ovsdb.DatabaseSchema
 }
 
 type monitorKind int
@@ -64,7 +67,7 @@ func newConditionalMonitor(id string, request map[string]*ovsdb.MonitorRequest, 
 func newConditionalSinceMonitor(id string, request map[string]*ovsdb.MonitorRequest, client *rpc2.Client) *monitor {
 	m := &monitor{
 		id:      id,
-		kind:    monitorKindConditional,
+		kind:    monitorKindConditionalSince,
 		request: request,
 		client:  client,
 	}
@@ -82,7 +85,7 @@ func (m *monitor) Send(update database.Update) {
 	}
 	args := []interface{}{json.RawMessage([]byte(m.id)), tu}
 	var reply interface{}
-	err := m.client.Call("update2", args, &reply)
+	err := m.client.Call("update", args, &reply)
 	if err != nil {
 		log.Printf("client error handling update rpc: %v", err)
 	}
@@ -116,7 +119,7 @@ func (m *monitor) Send3(id uuid.UUID, update database.Update) {
 	}
 	args := []interface{}{json.RawMessage([]byte(m.id)), id.String(), tu}
 	var reply interface{}
-	err := m.client.Call("update2", args, &reply)
+	err := m.client.Call("update3", args, &reply)
 	if err != nil {
 		log.Printf("client error handling update3 rpc: %v", err)
 	}
